@@ -18,7 +18,7 @@ CURRENCY_TYPES = ('CURRENCY', 'CURRENCYFREQUENCY', 'COSTPERMASS', 'ENERGYCOST') 
 EXTRA_UNITS = ['', 'percent', 'm', 'km', 'K', 'kelvin', 'cm', 'feet', 'g/cm**3', 'kg/s']   # non-catalogue spellings
 
 # error codes shared with coq/Model/UnitReader.v
-E_VALUE, E_INIT, E_UNDEF, E_CONV, E_FOREX, E_ATTR, E_DIM, E_OTHER = 3, 10, 11, 12, 13, 14, 15, 98
+E_VALUE, E_INIT, E_UNDEF, E_CONV, E_FOREX, E_ATTR, E_DIM, E_FLOAT, E_OTHER = 3, 10, 11, 12, 13, 14, 15, 17, 98
 
 
 class StubModel:
@@ -63,6 +63,8 @@ def discover_objects():
                 out[n] = o
     if len(out) < 20:
         raise RuntimeError(f'only {len(out)} parameter-owning classes discovered')
+    from hip_ra_x.hip_ra_x import HIP_RA_X          # HIP-RA-X reads its inputs through the same ReadParameter
+    out['HIP_RA_X'] = _quiet(lambda: HIP_RA_X(enable_hip_ra_logging_config=False))
     return out
 
 
@@ -91,6 +93,22 @@ def scalar_params(objs):
                          'utype': p.UnitType.name, 'currency': p.UnitType.name in CURRENCY_TYPES,
                          'enum': type(p.PreferredUnits).__name__, 'units': [str(m.value) for m in type(p.PreferredUnits)],
                          'pref': str(p.PreferredUnits.value), 'cur': uval(p.CurrentUnits), 'param': p})
+    return rows
+
+
+def list_params(objs):
+    """one-line list parameters that go through ReadParameter (Name without a space: 'Gradients', 'Thicknesses')"""
+    gx, P, U = modules()
+    rows, seen = [], set()
+    for cname, o in sorted(objs.items()):
+        for key, p in o.ParameterDict.items():
+            if isinstance(p, P.listParameter) and ' ' not in p.Name and isinstance(p.PreferredUnits, enum.Enum) \
+                    and not isinstance(p.PreferredUnits, U.Units) and p.Name not in seen:
+                seen.add(p.Name)
+                rows.append({'cls': cname, 'key': key, 'name': p.Name, 'kind': 'list', 'utype': p.UnitType.name,
+                             'currency': p.UnitType.name in CURRENCY_TYPES, 'enum': type(p.PreferredUnits).__name__,
+                             'units': [str(m.value) for m in type(p.PreferredUnits)], 'pref': str(p.PreferredUnits.value),
+                             'cur': uval(p.CurrentUnits), 'param': p})
     return rows
 
 
@@ -221,6 +239,7 @@ def collect():
     objs = discover_objects()
     params = scalar_params(objs)
     outs = output_params(objs)
+    lists = list_params(objs)
     scan_error = None
     try:
         scan = scan_order()
@@ -229,7 +248,7 @@ def collect():
     texts = set(EXTRA_UNITS)
     for _, _, vals in scan:
         texts.update(vals)
-    for r in params + outs:
+    for r in params + outs + lists:
         texts.update(r['units'])
         texts.add(r['pref'])
         texts.add(r['cur'][1])
@@ -241,7 +260,7 @@ def collect():
         h = t.split('/')[0]
         heads.add(h[1:])
         heads.add(h)
-    return {'scan_error': scan_error, 'objs': objs, 'params': params, 'outs': outs, 'scan': scan, 'pint': pm, 'sym': sym,
+    return {'scan_error': scan_error, 'objs': objs, 'lists': lists, 'params': params, 'outs': outs, 'scan': scan, 'pint': pm, 'sym': sym,
             'cc': cc_table(sorted(heads)), 'texts': sorted(texts), 'canon': sorted(canon)}
 
 
@@ -260,6 +279,8 @@ def err_code(e):
             return E_FOREX
     if n == 'ValueError' and 'outside of valid range' in msg:
         return E_VALUE
+    if n == 'ValueError' and 'could not convert string to float' in msg:
+        return E_FLOAT
     if n == 'AttributeError':
         return E_ATTR
     if n == 'DimensionalityError':
@@ -286,6 +307,18 @@ def real_read(param, svalue):
     except Exception as e:
         return {'status': 'err', 'code': err_code(e), 'exc': f'{type(e).__name__}: {str(e)[:160]}', 'p': p}
     return {'status': 'ok', 'value': p.value, 'cur': uval(p.CurrentUnits), 'provided': bool(p.Provided), 'p': p}
+
+
+def real_read_list(param, svalue, raw_entry):
+    """ReadParameter on a one-line list parameter -> dict(status, code | vals, cur)"""
+    gx, P, U = modules()
+    p = copy.deepcopy(param)
+    entry = P.ParameterEntry(Name=p.Name, sValue=svalue, raw_entry=raw_entry)
+    try:
+        _quiet(lambda: P.ReadParameter(entry, p, StubModel()))
+    except Exception as e:
+        return {'status': 'err', 'code': err_code(e), 'exc': f'{type(e).__name__}: {str(e)[:160]}'}
+    return {'status': 'ok', 'vals': [Fraction(float(v)) for v in p.value], 'cur': uval(p.CurrentUnits)}
 
 
 def real_back(p):
